@@ -67,6 +67,8 @@ class EvalMixin(object):
             if isinstance(cell, HDict):
                 if cell.items is not None:
                     return z3.BoolVal(len(cell.items) > 0)
+                if cell.size is not None:
+                    return cell.size > 0
                 return cell.nonempty if hasattr(cell, "nonempty") else z3.Bool(fresh_name("dict_nonempty"))
             return z3.BoolVal(True)
         if isinstance(v, VTuple):
@@ -289,6 +291,11 @@ class EvalMixin(object):
             return VTuple([self.ite(c, x, y, st, node) for x, y in zip(a.items, b.items)])
         if isinstance(a, VRef) and isinstance(b, VRef):
             ca, cb = st.heap[a.oid], st.heap[b.oid]
+            if a.oid == b.oid:
+                return a
+            if isinstance(ca, HObj) and isinstance(cb, HObj) and set(ca.f) == set(cb.f):
+                # read-only merge of two objects of the same shape (e.g. `node = cls or library`)
+                return st.alloc(HObj(ca.cls, dict((k, self.ite(c, ca.f[k], cb.f[k], st, node)) for k in ca.f)))
             if isinstance(ca, (HList, HCList)) and isinstance(cb, (HList, HCList)):
                 la, lb = self.as_hlist(ca), self.as_hlist(cb, ek=None)
                 if isinstance(ca, HCList) and not ca.items:
@@ -403,6 +410,12 @@ class EvalMixin(object):
                 return st.alloc(HCList(ca.items + cb.items))
             if isinstance(ca, (HList, HCList)) and isinstance(cb, (HList, HCList)):
                 return st.alloc(self.list_concat(ca, cb, st))
+        if isinstance(op, ast.Add) and isinstance(a, VStr) and isinstance(b, VPy):
+            self.safety(st, "TypeError", PyVal.is_pstr(b.e), node, "can only concatenate str to str")
+            return VStr(z3.Concat(a.e, PyVal.ps(b.e)))
+        if isinstance(op, ast.Add) and isinstance(b, VStr) and isinstance(a, VPy):
+            self.safety(st, "TypeError", PyVal.is_pstr(a.e), node, "can only concatenate str to str")
+            return VStr(z3.Concat(PyVal.ps(a.e), b.e))
         if isinstance(a, VPy) or isinstance(b, VPy):
             # dynamically typed operands: only str+str and int+int are total; anything else TypeError
             if isinstance(op, ast.Add):
@@ -644,6 +657,8 @@ class EvalMixin(object):
                     if -len(cell.items) <= k < len(cell.items):
                         return cell.items[k]
                     self.safety(st, "IndexError", z3.BoolVal(False), node, "list index out of range")
+                    if self.in_contract and st.guards:
+                        return cell.items[0] if cell.items else VStr("")   # unreachable under its guard
                     raise PathEnd()
                 cell = self.as_hlist(cell)
             if isinstance(cell, HList):
@@ -668,6 +683,14 @@ class EvalMixin(object):
                     self.safety(st, "KeyError", z3.BoolVal(False), node, "key %r" % k)
                     raise PathEnd()
                 return None
+            if isinstance(key, VStr) and cell.items:
+                ks = sorted(cell.items)
+                if strict:
+                    self.safety(st, "KeyError", z3.Or(*[key.e == S(k) for k in ks]), node, "key not in the constant table")
+                res = cell.items[ks[-1]]
+                for k in reversed(ks[:-1]):
+                    res = self.ite(key.e == S(k), cell.items[k], res, st, node)
+                return res
             raise OutOfSubset("static dict with symbolic key", node)
         if isinstance(key, VPy):
             self.safety(st, "KeyError", PyVal.is_pstr(key.e), node, "non-string key")
